@@ -291,3 +291,37 @@ Theorem C03_distributions_py_cdf_denotes_absorption_probability :
     List.map (fun t => 1 - (rv_of n alpha *m TM n Ss Slast t *m cv_of n e) ord0 ord0) ts.
 Proof. exact: source_cdf_denotes_absorption_probability. Qed.
 Print Assumptions C03_distributions_py_cdf_denotes_absorption_probability.
+
+(* ---- the SOURCE of the quantile search (TreeHeightDistribution._update / _cum / quantile, translated on every run by
+   translate/search2coq.py into gen/SearchGen.v): `_update` is the loop's `advance`, and - for every backend that computes the real
+   exponential - the whole search is the expanding / bisecting search of model/Search.v run on the source's OWN distribution
+   function, whatever the float comparisons are ---- *)
+From PG Require Import gen.SearchGen proofs.GenSearchEquiv analysis.SourceSearch.
+Theorem C03_distributions_py_update_is_advance :
+  forall (T : Type) (OP : Ops T) (expm : mat (T:=T) -> mat (T:=T)) (Slast : mat (T:=T))
+         (R0 : list (Q * mat (T:=T))) (Tm : mat (T:=T)) (up u : Q),
+    TreeHeightDistribution_update OP expm u up Tm (pos_of Slast R0)
+    = (u, lQ (advance_rest _ _ (mmul OP) (stepS OP expm) Slast Tm up R0 u),
+       pos_of Slast (lrest (advance_rest _ _ (mmul OP) (stepS OP expm) Slast Tm up R0 u))).
+Proof. exact @gen_update_spec. Qed.
+Print Assumptions C03_distributions_py_update_is_advance.
+
+Theorem C03_distributions_py_quantile_is_the_search_on_its_own_cdf :
+  forall (expm : seq (seq R) -> seq (seq R)),
+    (forall n A, wf n n A -> wf n n (expm A) /\ mx_of n n (expm A) = mexp (mx_of n n A)) ->
+  forall (lt_TQ : R -> Q -> bool) (lt_QT : Q -> R -> bool)
+         (n : nat) (Ss : seq (Q * seq (seq R))) (Slast : seq (seq R)) (alpha e : seq R),
+    all_wf n Ss -> wf n n Slast -> size e = n -> epochs_wf (seq (seq R)) 0%QQ Ss ->
+  forall (q ef prec : Q) (max_iter : nat), (1 <= ef)%QQ ->
+    TreeHeightDistribution_quantile OpsR expm lt_TQ lt_QT n alpha e (pos_of Slast Ss).1 (pos_of Slast Ss).2 q ef prec max_iter
+    = t_quantile (cdf_at expm Ss Slast alpha e) lt_TQ lt_QT (osub OpsR) q ef prec max_iter.
+Proof. exact @source_quantile_is_search_on_cdf. Qed.
+Print Assumptions C03_distributions_py_quantile_is_the_search_on_its_own_cdf.
+
+Theorem C03_search_model_is_an_instance :
+  forall (F : Q -> Q) fuel q ef prec a b i,
+    let ltq := fun x y : Q => if Qlt_le_dec x y then true else false in
+    expand F fuel q ef b i = t_expand F ltq fuel q ef b i /\
+    bisect F fuel q prec a b i = t_bisect F ltq ltq Qminus fuel q prec a b i.
+Proof. move=> F fuel q ef prec a b i ltq; split; [exact: expand_is_instance | exact: bisect_is_instance]. Qed.
+Print Assumptions C03_search_model_is_an_instance.
